@@ -144,6 +144,26 @@ def make_extent(body: typing.List[str], need: int, union: bool):
     return h
 
 
+EXTENT_VALUES = [("64", True), ("128 / 2", True), ("64.0", True), ("129 / 2", False), ("64.5", False), ("1e2", False),
+                 ("96 + 1/3", False), ("8 * 8", True), ("2 ** 6", True), ("2 ** 6.5", False), ("63", False), ("56", True), ("32", False),
+                 ("-64", False), ("0", False), ("true", False), ("'8'", False), ("{64}", False), ("{64}.max", True),
+                 ("_offset_.max + 24", True), ("_offset_", False), ("64 % 65", True), ("1/0", False)]
+
+
+def make_extent_values():
+    """@extent with integer, fractional, real, non-numeric and computed operands (body needs 40 bits)."""
+
+    def h(i: int) -> typing.Any:
+        a = pick(i, 0, len(EXTENT_VALUES) - 1)
+        if a is None:
+            return None
+        expr, want = EXTENT_VALUES[a]
+        text = "uint8 x\nuint32 y\n@extent %s\n" % expr
+        return textio.native(lambda: _iff(_accepts(text), want, "@extent %s" % expr))
+
+    return h
+
+
 def make_width():
     KW = ["uint", "int", "float", "void", "truncated uint", "truncated int", "truncated float", "saturated uint",
           "saturated int", "saturated float"]
@@ -595,6 +615,9 @@ def conditions(tier: str, seed: int) -> typing.List[Cond]:
         out.append(Cond(PROP, "c05.extent", make_extent, {"body": body, "need": need, "union": union}, {"a": int},
                         assumptions=["extent a in [-2**70, 2**70]"], fmtstub=True, witness={"a": 64}, budget=240.0,
                         need_exhaust=True))
+    out.append(Cond(PROP, "c05.extent-values", make_extent_values, {}, {"i": int}, kind="choice",
+                    assumptions=["%d extent operands: integers, fractions, reals, non-numbers, computed values" % len(EXTENT_VALUES)],
+                    witness={"i": 0}, budget=120.0, need_exhaust=True))
     out.append(Cond(PROP, "c05.width", make_width, {}, {"k": int, "w": int}, kind="choice",
                     assumptions=["10 type keywords x widths 0..70"], witness={"k": 0, "w": 8}, budget=600.0,
                     need_exhaust=True))
